@@ -202,7 +202,9 @@ func (pd *perBitData) parseBitString(extensed bool, lowerBoundPtr *int64, upperB
 		}
 	}
 	if ub > 65535 {
+		// X.691 10.9.3.3: the length is a semi-constrained count, the lower bound is not subtracted
 		sizeRange = -1
+		lb = 0
 	}
 	// initailization
 	bitString := BitString{[]byte{}, 0}
